@@ -528,12 +528,12 @@ class C15(Profile):
     def claim(self, kind, entry, run, v):
         if kind in ("rows_mismatch", "engine_mismatch"):
             # round trips / transfer simplification only
-            if entry is None or entry.op["k"] not in ("xfer", "mat"):
+            if entry is None or entry.op["k"] not in ("xfer", "mat", "conform_inner"):
                 return None
         return self.claims.get(kind)
 
     def gen(self, rng, tier):
-        w = {**UNARY_W, "xfer": 7, "mat": 4, "chain": 1, "join": 1, "leaf": 1, "process": 2}
+        w = {**UNARY_W, "xfer": 7, "mat": 4, "chain": 1, "join": 1, "leaf": 1, "process": 2, "conform_inner": 1.5}
         return multi_gen(rng, tier, weights=w, flags_p=0.55,
                          engines=["sql", "it", "it2"] if rng.random() < 0.6 else ["sql", "it"])
 
@@ -594,16 +594,17 @@ class C17(Profile):
         self.new_entry_hooks = (oracles.conformed,)
 
     def claim(self, kind, entry, run, v):
-        if kind == "rows_mismatch" and (entry is None or entry.op["k"] != "rawtree"):
+        if kind == "rows_mismatch" and (entry is None or entry.op["k"] not in ("rawtree", "conform_inner")):
             return None
         return self.claims.get(kind)
 
     def gen(self, rng, tier):
         big = tier == "thorough"
         if rng.random() < 0.25:
-            w = {**MULTI_W, "process": 3, "rawtree": 2}
+            w = {**MULTI_W, "process": 3, "rawtree": 2, "conform_inner": 3, "mat": 3}
             return multi_gen(rng, tier, weights=w, flags_p=0.3, engines=["sql", "it"])
-        g = Gen(rng, engines=["sql"], weights={**UNARY_W, "chain": 2, "join": 2, "leaf": 1, "rawtree": 4},
+        g = Gen(rng, engines=["sql"], weights={**UNARY_W, "chain": 2, "join": 2, "leaf": 1, "rawtree": 4, "conform_inner": 1,
+                                               "mat": 0.7, "process": 0.7},
                 max_ops=14 if big else 10, nleaves=(1, 3), adjacent_p=0.2)
         return {"config": swarm_config(rng), "ops": g.build()}
 
